@@ -210,10 +210,16 @@ class Endpoint:
         elif name == "lost":
             self.up = False
             self.lost_at = len(self.log)
-            fw.lose(self.p, clean=rng.random() < 0.5)
+            try:
+                fw.lose(self.p, clean=rng.random() < 0.5)
+            except Exception as e:  # noqa  (nothing may escape connection_lost)
+                self.log.append(("escape", "connection_lost:" + type(e).__name__))
             self.ev("lost")
         elif name == "adv":
-            fw.advance(0.5)
+            try:
+                fw.advance(0.5)
+            except Exception as e:  # noqa  (nothing may escape a timer)
+                self.log.append(("escape", "timer:" + type(e).__name__))
             self.ev("adv")
 
 
